@@ -1,7 +1,16 @@
 import sys, warnings; sys.path.insert(0,'/verif'); warnings.simplefilter('ignore')
-from checks import c13
-r=c13.job_perm('W-ovo',2,3,empty_col=True)
-for o in r['obligations'][:6]: print(o)
-print(r['violations'])
-rep={"kind":"perm","label":"W-ovo","n":2,"K":3,"sigma":[0,1],"tau":[2,0,1],"empty_col":True,"model":{"p_0_0":"1/3","p_1_0":"3/4"}}
-print(c13.replay(rep,verbose=True))
+from symx import core, harness, loader
+from symx.explore import Explorer
+import numpy as np
+loader.install()
+pg=loader.load('sparse._prox_grad')
+def setup():
+    v=harness.free_matrix(1,1,'v'); u=harness.free_matrix(1,1,'u'); a=core.var('alpha','0+'); M=core.var('M','0+'); lr=core.var('lr','+')
+    return v,u,a*lr,M
+orig=pg.np.take_along_axis
+def body(arg):
+    v,u,thr,M=arg
+    return pg.mlp_prox_grad(v,u,thr,M)
+ex=Explorer(max_paths=3)
+for out,pc,tr in ex.run(body,setup):
+    print(out); print(pc); break
